@@ -29,6 +29,7 @@ import (
 	"path/filepath"
 	"sort"
 	"sync"
+	"sync/atomic"
 	"time"
 
 	"github.com/go-faster/errors"
@@ -70,6 +71,29 @@ func (r *recorder) add(e event) {
 type capLogger struct {
 	rec    *recorder
 	engine bool
+	park   *parker
+}
+
+// parker blocks the goroutine that emits the k-th Conn log record while it is armed: the
+// log records of handleMessage are the scheduling points at which a second frame is
+// interleaved (readLoop handles every received frame in its own goroutine).
+type parker struct {
+	armed   atomic.Bool
+	k       atomic.Int32
+	parked  chan struct{}
+	release chan struct{}
+}
+
+func newParker() *parker { return &parker{parked: make(chan struct{}, 1), release: make(chan struct{})} }
+func (p *parker) hit() {
+	if p == nil || !p.armed.Load() {
+		return
+	}
+	if p.k.Add(-1) == 0 {
+		p.armed.Store(false)
+		p.parked <- struct{}{}
+		<-p.release
+	}
 }
 
 func (l capLogger) Enabled(context.Context, log.Level) bool { return true }
@@ -106,6 +130,7 @@ func (l capLogger) Log(_ context.Context, _ log.Level, msg string, attrs ...log.
 			l.rec.add(event{Kind: "acks", IDs: append([]int64{}, ids...)})
 		}
 	}
+	l.park.hit()
 }
 
 type handler struct {
@@ -171,7 +196,14 @@ type caseIn struct {
 	Stream  string  `json:"stream"`
 	// ground truth of generated (unmutated) messages: what must be delivered to whom
 	Truth []truth `json:"truth,omitempty"`
-	data  []byte
+	// OracleOnly: outcome depends on the scheduling of Engine.Do's completion (an id notified
+	// twice); only the oracle is applied, no model comparison.
+	OracleOnly bool `json:"oracle_only,omitempty"`
+	// Other: a second frame handled while the first is parked at its ParkAt-th log record.
+	Other  string `json:"other,omitempty"`
+	ParkAt int    `json:"park_at,omitempty"`
+	data   []byte
+	other  []byte
 }
 
 type truth struct {
@@ -206,7 +238,8 @@ func runCase(in *caseIn) caseOut {
 		}
 		return nil
 	}, rpc.Options{Logger: capLogger{rec: rec, engine: true}, RetryInterval: time.Hour, MaxRetries: 1000})
-	conn := mtproto.VerifNew(mtproto.Options{Handler: handler{rec: rec, sessErr: in.SessErr}, Logger: capLogger{rec: rec}},
+	pk := newParker()
+	conn := mtproto.VerifNew(mtproto.Options{Handler: handler{rec: rec, sessErr: in.SessErr}, Logger: capLogger{rec: rec, park: pk}},
 		mtproto.VerifConfig{Engine: engine})
 	ctx, cancel := context.WithCancel(context.Background())
 	var wg sync.WaitGroup
@@ -236,9 +269,46 @@ func runCase(in *caseIn) caseOut {
 	}
 	var out caseOut
 	var err error
-	panicked, pval := hx.Recover(func() {
-		err = conn.VerifHandleMessage(in.MsgID, &bin.Buffer{Buf: append([]byte{}, in.data...)})
-	})
+	var panicked bool
+	var pval interface{}
+	if in.other == nil {
+		panicked, pval = hx.Recover(func() {
+			err = conn.VerifHandleMessage(in.MsgID, &bin.Buffer{Buf: append([]byte{}, in.data...)})
+		})
+	} else {
+		// frame A runs until its ParkAt-th log record, frame B runs to completion, A resumes
+		pk.k.Store(int32(in.ParkAt))
+		pk.armed.Store(true)
+		doneA := make(chan struct{})
+		var errA error
+		var panA bool
+		var pvA interface{}
+		go func() {
+			panA, pvA = hx.Recover(func() {
+				errA = conn.VerifHandleMessage(in.MsgID, &bin.Buffer{Buf: append([]byte{}, in.data...)})
+			})
+			close(doneA)
+		}()
+		select {
+		case <-pk.parked:
+		case <-doneA:
+		}
+		pk.armed.Store(false)
+		var errB error
+		panB, pvB := hx.Recover(func() {
+			errB = conn.VerifHandleMessage(in.MsgID+4, &bin.Buffer{Buf: append([]byte{}, in.other...)})
+		})
+		close(pk.release)
+		<-doneA
+		panicked, pval = panA || panB, pvA
+		if panB {
+			pval = pvB
+		}
+		err = errA
+		if err == nil {
+			err = errB
+		}
+	}
 	switch {
 	case panicked:
 		out.status, out.pval = 2, pval
@@ -534,7 +604,15 @@ func (h *H) one(in *caseIn, wantCoq bool) {
 	c.Count("stream:" + in.Stream)
 	tab := map[string]gzEntry{}
 	gunzipTable(in.data, 0, tab)
+	if in.other != nil {
+		gunzipTable(in.other, 0, tab)
+	}
+	watch(in)
 	out := runCase(in)
+	unwatch()
+	if in.OracleOnly || in.other != nil {
+		wantCoq = false
+	}
 	pend := map[int64]bool{}
 	for _, p := range in.Pending {
 		pend[p] = true
@@ -585,6 +663,9 @@ func (h *H) one(in *caseIn, wantCoq bool) {
 	}
 	c.Count(fmt.Sprintf("status:%d", out.status))
 	names := namedIDs(in.data, tab)
+	if in.other != nil {
+		names = append(names, namedIDs(in.other, map[string]gzEntry{})...)
+	}
 	delivered := 0
 	for _, e := range out.events {
 		switch e.Kind {
@@ -704,12 +785,108 @@ func pendingFor(r *hx.Rand, data []byte) []int64 {
 	return out
 }
 
+// ---------- watchdog ----------
+
+type watched struct {
+	in    *caseIn
+	since time.Time
+}
+
+var (
+	watching atomic.Pointer[watched]
+	theCtx   *hx.Ctx
+)
+
+func watch(in *caseIn) { watching.Store(&watched{in: in, since: time.Now()}) }
+func unwatch()         { watching.Store(nil) }
+func watchdog(limit time.Duration) {
+	go func() {
+		for {
+			time.Sleep(time.Second)
+			if w := watching.Load(); w != nil && time.Since(w.since) > limit {
+				theCtx.Violate("handle-message-hangs", fmt.Sprintf("handleMessage(%s) did not return within %s", w.in.Hex, limit), -1, 0, w.in)
+				theCtx.Finish()
+				os.Exit(0)
+			}
+		}
+	}()
+}
+
+func container(r *hx.Rand, bodies ...[]byte) []byte {
+	c := proto.MessageContainer{}
+	for i, b := range bodies {
+		c.Messages = append(c.Messages, proto.Message{ID: int64(r.U64()), SeqNo: i, Bytes: len(b), Body: b})
+	}
+	return enc(&c)
+}
+
+// duplicates: the same ping / ack / request id notified more than once by ONE payload (handled
+// synchronously by one handleMessage call, so no waiter can unregister in between).
+func duplicates(r *hx.Rand) []*caseIn {
+	mkc := func(stream string, data []byte, pending, pings []int64, oracleOnly bool) *caseIn {
+		return &caseIn{MsgID: int64(r.U64()) | 1, Hex: hex.EncodeToString(data), data: data, Stream: stream,
+			Pending: pending, Pings: pings, OracleOnly: oracleOnly}
+	}
+	p := int64(r.Intn(6))
+	id := (int64(r.U64()) &^ 3) | 4
+	pong := enc(&mt.Pong{MsgID: int64(r.U64()), PingID: p})
+	ack1 := enc(&mt.MsgsAck{MsgIDs: []int64{id}})
+	ack2 := enc(&mt.MsgsAck{MsgIDs: []int64{id, id + 8, id}})
+	bodyA, bodyB := enc(&tg.User{ID: int64(r.Intn(1000))}), enc(&tg.UpdatesTooLong{})
+	resA := enc(&proto.Result{RequestMessageID: id, Result: bodyA})
+	resB := enc(&proto.Result{RequestMessageID: id, Result: bodyB})
+	bad := enc(&mt.BadMsgNotification{BadMsgID: id, BadMsgSeqno: 1, ErrorCode: 32})
+	salt := enc(&mt.BadServerSalt{BadMsgID: id, BadMsgSeqno: 1, ErrorCode: 48, NewServerSalt: int64(r.U64())})
+	wrapped := enc(&proto.Result{RequestMessageID: id + 16, Result: pong})
+	return []*caseIn{
+		mkc("dup-pong", container(r, pong, pong), nil, []int64{p}, false),
+		mkc("dup-pong", container(r, pong, wrapped), nil, []int64{p}, false),
+		mkc("dup-pong", container(r, wrapped, gz(pong), pong), nil, []int64{p}, false),
+		mkc("dup-ack", ack2, []int64{id}, nil, false),
+		mkc("dup-ack", container(r, ack1, ack1), []int64{id}, nil, false),
+		mkc("dup-ack", container(r, ack2, resA), []int64{id}, nil, false),
+		mkc("dup-result", container(r, resA, resB), []int64{id}, nil, true),
+		mkc("dup-result", container(r, resA, bad), []int64{id}, nil, true),
+		mkc("dup-result", container(r, bad, salt, resB), []int64{id}, nil, true),
+	}
+}
+
+// interleaved: two frames naming two different pending requests, the first parked at one of
+// its log records while the second is handled.
+func interleaved(r *hx.Rand) *caseIn {
+	x := (int64(r.U64()) &^ 3) | 4
+	y := x + 8*int64(r.Range(1, 1000))
+	frame := func(id int64) ([]byte, truth) {
+		body := enc(&tg.User{ID: id, FirstName: string(r.Bytes(r.Range(1, 40)))})
+		switch r.Intn(5) {
+		case 0:
+			code := r.Range(300, 500)
+			return enc(&proto.Result{RequestMessageID: id, Result: enc(&mt.RPCError{ErrorCode: code, ErrorMessage: "X"})}), truth{ID: id, Code: code}
+		case 1:
+			return enc(&proto.Result{RequestMessageID: id, Result: gz(body)}), truth{ID: id, Result: true, Hex: hex.EncodeToString(body)}
+		case 2:
+			return enc(&mt.BadMsgNotification{BadMsgID: id, BadMsgSeqno: 1, ErrorCode: 33}), truth{ID: id, Code: 33}
+		default:
+			return enc(&proto.Result{RequestMessageID: id, Result: body}), truth{ID: id, Result: true, Hex: hex.EncodeToString(body)}
+		}
+	}
+	a, ta := frame(x)
+	b, tb := frame(y)
+	return &caseIn{MsgID: int64(r.U64()) | 1, Hex: hex.EncodeToString(a), data: a, Other: hex.EncodeToString(b), other: b,
+		ParkAt: r.Range(1, 4), Stream: "interleaved", Pending: []int64{x, y}, Truth: []truth{ta, tb}}
+}
+
 func main() {
 	c := hx.Start("C23", "Run.Check_C23", 60)
-	h := &H{c: c, coqLeft: c.N(300, 6000)}
+	h := &H{c: c, coqLeft: c.N(340, 6000)}
+	theCtx = c
+	watchdog(60 * time.Second)
 	var rp caseIn
 	if c.LoadReplay(&rp) {
 		rp.data, _ = hex.DecodeString(rp.Hex)
+		if rp.Other != "" {
+			rp.other, _ = hex.DecodeString(rp.Other)
+		}
 		out := runCase(&rp)
 		fmt.Printf("replay: status=%d err=%v panic=%v events=%+v closed=%v salts=%v\n", out.status, out.err, out.pval, out.events, out.closed, out.salts)
 		h.coqLeft = 1
@@ -764,6 +941,15 @@ func main() {
 			continue
 		}
 		h.one(mk("corpus", data, nil), k%coqEvery == 0)
+	}
+	// 2b. the same id notified twice by one payload; two frames interleaved at the log records
+	for k := 0; k < c.N(25, 600); k++ {
+		for i, in := range duplicates(c.Rng) {
+			h.one(in, (k+i)%4 == 0)
+		}
+	}
+	for k := 0; k < c.N(120, 4000); k++ {
+		h.one(interleaved(c.Rng), false)
 	}
 	// 2. generated service messages, their mutants
 	nGen := c.N(700, 20000)
